@@ -36,6 +36,9 @@ def main(argv=None) -> int:
     rep = Report(prop, args.tier, seed)
     try:
         idx = index_mod.Index(repo=index_mod.REPO)
+        from . import report as report_mod
+
+        report_mod.set_index(idx)
         mod.run(idx, rep, args.tier)
         from .props.extra import run_extra
 
